@@ -1431,6 +1431,7 @@ package main
 //@   trusted
 //@   modifies maps
 //@   panics may
+//@   ensures only-the-global-table: mapsframe_except(pkgvar(g_uniInfoDic).Fdict)
 //@   note abstract: stores the info under uniToKey(ut) in the global table (dict.Add on a package-level dictionary)
 
 //@ func tpreplace
@@ -2042,3 +2043,76 @@ package main
 //@   ensures scope-kept: result.scope == ps.scope
 //@   ensures live: live(result) && samebuf(result, ps) && result.offsideCol == ps.offsideCol
 //@   ensures progress: result.tkz.current.begin > ps.tkz.current.begin
+
+// ---------------------------------------------------------------------------------------------
+// C16: the traversals of type expressions terminate also on recursive types.  Variant (lexicographic):
+// (registered type names not yet visited, structural size) - /verif/specs/termination.spec.
+// ---------------------------------------------------------------------------------------------
+
+//@ func lookupRecInfo
+//@   trusted
+//@   panics iff !has_recinfo(rt)
+//@   returns recinfo(rt)
+//@   note abstract: reads the global record-info dictionary; "Can't find record info" is a panic
+
+//@ func collectTVarFTypeWithSet
+//@   props C16
+//@   modifies maps
+//@   requires carve-out-F11-no-recursive-record-type: records_wellfounded()
+//@   panics may
+//@   decreases lex(vroom(domof(visited.Dict.Fdict)), ftsize(ft))
+//@   ensures visited-only-grows: dsubset(old(domof(visited.Dict.Fdict)), domof(visited.Dict.Fdict))
+//@   ensures others: mapsframe_except(visited.Dict.Fdict)
+//@   inline-call slice.Collect#0
+//@   inline-call slice.Collect#1
+//@   inline-call slice.Collect#2
+//@   inline-call slice.Collect#3
+//@   inline-call slice.Collect#4
+//@   loop slice.Collect#0/0 index i:
+//@     invariant grows: dsubset(old(domof(visited.Dict.Fdict)), domof(visited.Dict.Fdict)) && mapsframe_except(visited.Dict.Fdict)
+//@   loop slice.Collect#1/0 index i:
+//@     invariant grows: dsubset(old(domof(visited.Dict.Fdict)), domof(visited.Dict.Fdict)) && mapsframe_except(visited.Dict.Fdict)
+//@   loop slice.Collect#2/0 index i:
+//@     invariant grows: dsubset(old(domof(visited.Dict.Fdict)), domof(visited.Dict.Fdict)) && mapsframe_except(visited.Dict.Fdict)
+//@   loop slice.Collect#3/0 index i:
+//@     invariant grows: dsubset(old(domof(visited.Dict.Fdict)), domof(visited.Dict.Fdict)) && mapsframe_except(visited.Dict.Fdict)
+//@     invariant marked: has(visited.Dict.Fdict, uname)
+//@   loop slice.Collect#4/0 index i:
+//@     invariant grows: dsubset(old(domof(visited.Dict.Fdict)), domof(visited.Dict.Fdict)) && mapsframe_except(visited.Dict.Fdict)
+
+//@ func faResolve
+//@   trusted
+//@   panics may
+//@ func updateRecInfo
+//@   trusted
+//@   modifies maps
+//@   panics may
+//@   ensures only-the-global-table: mapsframe_except(pkgvar(g_recInfoDic).Fdict)
+//@   note abstract: stores the info in the global record-info dictionary (a package-level dictionary, never a visited set)
+
+//@ func transTVFTypeWithSet
+//@   props C16
+//@   modifies maps
+//@   ghost G map[string]bool     -- the visited set as of the last marking done by this call
+//@   ghost-assume start: G == domof(visited.Dict.Fdict)
+//@   requires carve-out-F11-no-recursive-record-type: records_wellfounded()
+//@   panics may
+//@   decreases lex(vroom(domof(visited.Dict.Fdict)), ftsize(ftp))
+//@   ensures visited-only-grows: dsubset(old(domof(visited.Dict.Fdict)), domof(visited.Dict.Fdict))
+//@   inline-call Map
+//@   inline-call transRecType#0
+//@   loop Map/0 index i:
+//@     invariant grows: dsubset(G, domof(visited.Dict.Fdict))
+//@   at after call SSetPut#0: G = domof(visited.Dict.Fdict)
+
+//@ func collectTVarFType
+//@   props C16
+//@   modifies maps
+//@   requires carve-out-F11-no-recursive-record-type: records_wellfounded()
+//@   panics may
+
+//@ func transTVFType
+//@   props C16
+//@   modifies maps
+//@   requires carve-out-F11-no-recursive-record-type: records_wellfounded()
+//@   panics may
